@@ -615,7 +615,7 @@ fn mtbdd_terminals(rep: &mut Report) {
 
 pub fn run(cfg: &Cfg) -> i32 {
     let start = Instant::now();
-    if let Some(path) = &cfg.replay {
+    if let Some(path) = cfg.replay.as_ref().filter(|p| replay_case_is(p, |c| c.get("script").is_some())) {
         let v: Value = serde_json::from_str(&std::fs::read_to_string(path).expect("replay file")).expect("json");
         let c = &v["case"];
         let s: Script = serde_json::from_value(c["script"].clone()).expect("script");
